@@ -631,6 +631,15 @@ def State.updateNodeID (st : State) (h : Nat) (newId : String) : State :=
   let st2 := st1.modNode h fun n => { n with id := newId }
   { st2 with rnodes := alSet st2.rnodes newId h }
 
+/-- a Node ID in a Modification Request: a new SMF takes the session's node over (session.go:157-170) -/
+def State.takeover (st : State) (nodeID : Option String) (h : Nat) : State :=
+  match nodeID with
+  | some nid => st.updateNodeID h nid
+  | none => st
+
+@[simp] theorem State.takeover_lnode (st : State) (o : Option String) (h : Nat) : (st.takeover o h).lnode = st.lnode := by
+  cases o <;> rfl
+
 /-- the rule loops of handleSessionModificationRequest, in the handler's order (session.go:172-301) -/
 def modStages (r : ModReq) : List Stage := [
   liftS (fun s ie c => s.createSimple .far ie c) r.cfar,
@@ -656,9 +665,7 @@ def handleMod (st : State) (addr : String) (seq : BitVec 24) (r : ModReq) (env :
   | none =>
     st.sendRsp addr { kind := .modRsp, seq := seq, seid := some 0, cause := some causeNoContext } c
   | some s0 =>
-    let st0 := match r.nodeID with
-      | some nid => st.updateNodeID s0.rnode nid
-      | none => st
+    let st0 := st.takeover r.nodeID s0.rnode
     let (s16, c16, u16) := runStages (modStages r) s0 c []
     let (s17, ies) := emitUsars s16 u16 0 true
     let rsp : Msg := { kind := .modRsp, seq := seq, seid := some s17.remoteID, cause := some causeAccepted, usars := ies }
@@ -724,15 +731,19 @@ def reportDest (nodeId : String) : Option String :=
 def buffF : BitVec 16 := BitVec.ofNat 16 Gen.report.APPLY_ACT_BUFF
 def nocpF : BitVec 16 := BitVec.ofNat 16 Gen.report.APPLY_ACT_NOCP
 
+/-- `if r.Action&APPLY_ACT_BUFF != 0 && len(r.BufPkt) > 0 { sess.Push(r.PDRID, r.BufPkt) }` -/
+def State.pushPkt (st : State) (x : Seid) (pdr : Nat) (act : BitVec 16) (pkt : Bytes) : State :=
+  match st.lnode.lookup x with
+  | some s => if (act &&& buffF != 0) && pkt.length > 0 then st.setSess (s.push st.cfg.qlen pdr pkt) else st
+  | none => st
+
 /-- the loop over `sr.Reports` in `ServeReport`; the third component is `none` after the early `return`
     taken for a downlink-data report without NOCP -/
 def serveLoop (x : Seid) (dest : String) : List RepItem → State → Ctx → List Report → State × Ctx × Option (List Report)
   | [], st, c, us => (st, c, some us)
   | .usar r :: rest, st, c, us => serveLoop x dest rest st c (us ++ [r])
   | .dldr pdr act pkt :: rest, st, c, us =>
-    let st1 := match st.lnode.lookup x with
-      | some s => if (act &&& buffF != 0) && pkt.length > 0 then st.setSess (s.push st.cfg.qlen pdr pkt) else st
-      | none => st
+    let st1 := st.pushPkt x pdr act pkt
     if act &&& nocpF == 0 then (st1, c, none)
     else
       let (st2, c2) := match st1.lnode.lookup x with
